@@ -1,8 +1,10 @@
-CONSTANTS MaxCnt = 3 Faults = {"none"}
+CONSTANTS MaxCnt = 3 Faults = {"none", "close", "garbage"}
 SPECIFICATION Spec
 INVARIANT AmfNeverRejects
 INVARIANT CountFresh
 INVARIANT Prereq
 INVARIANT ReportedIsAssigned
+INVARIANT FailStopSafe
 PROPERTY Completes
+PROPERTY Terminates
 CHECK_DEADLOCK FALSE
